@@ -4,6 +4,7 @@ CONSTANTS
   MaxVer = 2
   MaxPin = 2
   FixDealloc = TRUE
+  Races = TRUE
 SPECIFICATION Spec
 INVARIANTS ReplacerPinFree MappedRight NonResidentOnDisk DirtyRight
 PROPERTIES Coherent PinSafe FreshId
